@@ -437,6 +437,53 @@ pub fn run(tier: Tier, seed: u64) -> i32 {
         }
     }
 
+    // ite is lazy also over the device: an output that floats (Z) or is unknown (X) in the branch that is
+    // not selected does not matter, in the selected branch or the condition it is an error item
+    {
+        let sigs = sigs();
+        let forms = vec![
+            ite(name("p"), name("q"), lit(3)),
+            ite(name("p"), lit(3), name("q")),
+            ite(name("q"), lit(1), lit(2)),
+            bin(BinOp::Add, ite(name("p"), bin(BinOp::Mul, name("q"), lit(2)), lit(4)), lit(1)),
+            ite(name("p"), ite(lit(0), name("q"), lit(5)), ite(lit(1), lit(6), name("q"))),
+        ];
+        let mut body = vec![Stmt::Declare("V".into(), lit(0))];
+        for f in &forms {
+            body.push(Stmt::Row(vec![Entry::Lit(0, Radix::Dec), Entry::Paren(f.clone()), Entry::Bits(1, f.clone())]));
+            body.push(Stmt::Let("t".into(), f.clone()));
+        }
+        let header: Vec<String> = vec!["A".into(), "V".into(), "O".into()];
+        // bits(1, f) covers the column O? no: A V O are three columns: (f) is V's, bits(1,f) is O's
+        let prog = Program { header, body };
+        let text = text(&prog);
+        for (pv, qv) in [(V::Num(0), V::Z), (V::Num(1), V::Z), (V::Num(0), V::X), (V::Num(1), V::X), (V::Num(1), V::Num(2))] {
+            let ans: Answer = vec![("p".into(), pv), ("q".into(), qv), ("r".into(), V::Num(0)), ("s".into(), V::Num(0)), ("O".into(), V::Num(0))];
+            let script = vec![Step::Ans(ans)];
+            let mut env = ScriptEnv::new(&script);
+            env.repeat_last = true;
+            let r = crate::refsem::run_opts2(&prog, &sigs, &mut env, Fuel { steps: 2000, rows: 40 }, true, true);
+            let mut opts = RunOpts::new(r.items.len() + 1);
+            opts.repeat_last = true;
+            opts.continue_after_error = true;
+            let obs = run_dynamic(&text, &sigs, true, &script, &opts);
+            total.evals += forms.len() as u64;
+            total.nontrivial += forms.len() as u64;
+            total.witness("ite_over_a_floating_or_unknown_device_output");
+            let proj = Proj { input_values: true, expected: true, output: false, checked_kind: true, lines: false, vars: false, verdicts: false };
+            // (what follows an error item is compared leniently: only if rows are yielded at all)
+            let mut mm = run_mismatch(&r, &obs, proj, None);
+            if let (Some((k, _)), Some(fe)) = (&mm, r.items.iter().position(|i| matches!(i, RefItem::ExprErr(_)))) {
+                if *k > fe && !obs.items.get(*k).map(|i| i.is_row()).unwrap_or(false) {
+                    mm = None;
+                }
+            }
+            if let Some((k, m)) = mm {
+                total.violation(&format!("{} [ite over Z/X device outputs]", classify(&m)), (9 << 32) + k as u64, format!("p = {}, q = {}\nprogram:\n{text}first difference at {m}", pv.show(), qv.show()), || dyn_replay(&text, &sigs, true, &script, &opts, ref_items_brief(&r), &obs, &m));
+            }
+        }
+    }
+
     // operands written without blanks next to their operator, where the header has signals whose
     // names are spelt like that piece of text (any non-blank text is a signal name): `p-q` in an
     // expression is p minus q
@@ -516,7 +563,7 @@ pub fn run(tier: Tier, seed: u64) -> i32 {
             "reference evaluator refsem::binop/unop/climb is the oracle (i64 wrapping, shift count & 63, truncating division, MIN/-1 = MIN, MIN%-1 = 0)".into(),
             "valuations are a fixed set of 12 (4 for the unary-prefixed chains in the quick tier) chosen so that different trees give different values; values outside the boundary sets are not enumerated (DESIGN section 10)".into(),
         ],
-        required_witnesses: vec!["very_long_expression", "expression_after_12000_rows_that_could_not_be_evaluated", "operands_glued_to_operators_next_to_signals_spelt_alike", "operand_written_as_a_function_call", "flat_chain", "unary_prefixed_operand", "explicit_tree", "operator_table_entry", "MIN_op_minus_one", "shift_count_outside_0_63", "ite_with_failing_or_drawing_unselected_branch", "literal_radix_form"],
+        required_witnesses: vec!["very_long_expression", "expression_after_12000_rows_that_could_not_be_evaluated", "operands_glued_to_operators_next_to_signals_spelt_alike", "operand_written_as_a_function_call", "ite_over_a_floating_or_unknown_device_output", "flat_chain", "unary_prefixed_operand", "explicit_tree", "operator_table_entry", "MIN_op_minus_one", "shift_count_outside_0_63", "ite_with_failing_or_drawing_unselected_branch", "literal_radix_form"],
         exhaustive_note: "all operator triples, shapes, prefixes and operand pairs listed".into(),
         e1: false,
     };
